@@ -33,6 +33,9 @@ void harness(void) {
   /* managed instance: create, assemble with growth, assemble again, destroy */
   unsigned long mode = IN(0);
   ASSUME(mode < 3);
+#ifdef MODEFIX
+  ASSUME(mode == MODEFIX); mode = MODEFIX;       /* one query per assemble mode */
+#endif
   assemblyline_t A = asm_create_instance(NULL, 0);
   if (A == NULL) {
     CHECK(os_failed_any, "creation fails only when the OS refused something");
